@@ -23,7 +23,16 @@ def steady_band(N, humans, a, c, gap, rows, change=None):
 class C12(scen.WorldProp):
     id = "C12"
     lean_module = "Wheatley.Props.C12"
-    theorems = []
+    theorems = ["Wheatley.C12.wls_recovers",
+                "Wheatley.C12.system_nonsingular",
+                "Wheatley.C12.contraction",
+                "Wheatley.C12.inertia0_exact",
+                "Wheatley.C12.geometric",
+                "Wheatley.C12.fixed_point",
+                "Wheatley.C12.memory_bounded",
+                "Wheatley.C12.forgets_oldest",
+                "Wheatley.det_pos",
+                "Wheatley.regress_eq"]
     level_text = ("theorems (any ordered field): weighted least squares recovers a line exactly from any data set "
                   "lying on it (any positive weights, two distinct blows); the determinant is a sum of squares, "
                   "positive for positive weights; one update moves the line to lerp(regression, line, inertia), so on "
@@ -89,12 +98,17 @@ class C12(scen.WorldProp):
                 return a + c * b0 + ch[1] * (bt - b0)
             return a + c * bt
         count = {}
+        prev_t = float("-inf")
         for (t, b, h) in rings:
             r = count.get(b, 0)
             count[b] = r + 1
             p = b - 1
             # number of human strikes heard before this strike
-            heard = sum(1 for hb in humans for rr in range(req["rows"]) if line(rr, hb - 1) <= t - 1e-9)
+            # a wait that is already in progress when a regression happens is not re-timed, so the claim
+            # is checked for turns that began after the strikes were heard: count those heard before
+            # Wheatley's previous strike
+            heard = sum(1 for hb in humans for rr in range(req["rows"]) if line(rr, hb - 1) <= prev_t - 1e-9)
+            prev_t = t
             err = abs(t - line(r, p))
             mode = req["mode"]
             if mode == "fixed":
